@@ -79,3 +79,53 @@ package quicutils
 //@   modifies elems(offsets)
 //@   at call builtin:copy#1 assert fresh(a0) && a1 == current.Data
 //@   at call builtin:copy#2 assert-after forall p int {newData[p - current.UpperAppOffset]} :: current.UpperAppOffset <= p && p < next.UpperAppOffset + len(next.Data) ==> newData[p - current.UpperAppOffset] == (p < currentEnd ? current.Data[p - current.UpperAppOffset] : next.Data[p - next.UpperAppOffset])
+
+// C06 (the reassembled CRYPTO stream is never read outside its fragments): the cursor of a LinearLocator
+// always designates fragment iOuter, and a range read that continues into the next fragment does so only
+// when that fragment starts exactly where the current one ends - a gap is "missing crypto", never an
+// out-of-range read. (Fragment offsets are QUIC varints: at most 62 bits, so offset + length cannot wrap.)
+//@ func (*LinearLocator).relocate
+//@   requires l != nil
+//@   let cur() = len(l.o) == 0 || (0 <= l.iOuter && l.iOuter < len(l.o) && l.baseStart == l.o[l.iOuter].UpperAppOffset && len(l.baseData) == len(l.o[l.iOuter].Data) && l.baseEnd == l.baseStart + len(l.baseData))
+//@   let nn() = forall q int {l.o[q]} :: 0 <= q && q < len(l.o) ==> l.o[q] != nil && 0 <= l.o[q].UpperAppOffset && l.o[q].UpperAppOffset <= 4611686018427387904
+//@   requires cur() && len(l.o) > 0
+//@   requires nn()
+//@   modifies l.iOuter, l.baseData, l.baseStart, l.baseEnd
+//@   ensures cur()
+//@   ensures nn()
+//@   ensures err == nil ==> l.baseStart <= i && i < l.baseEnd
+//@   loop 1
+//@     invariant cur()
+//@     invariant nn()
+
+//@ func (*LinearLocator).Range
+//@   requires l != nil
+//@   let cur() = len(l.o) == 0 || (0 <= l.iOuter && l.iOuter < len(l.o) && l.baseStart == l.o[l.iOuter].UpperAppOffset && len(l.baseData) == len(l.o[l.iOuter].Data) && l.baseEnd == l.baseStart + len(l.baseData))
+//@   let nn() = forall q int {l.o[q]} :: 0 <= q && q < len(l.o) ==> l.o[q] != nil && 0 <= l.o[q].UpperAppOffset && l.o[q].UpperAppOffset <= 4611686018427387904
+//@   requires cur() && 0 <= i && i <= j && j <= 1152921504606846976 && 0 <= l.left && l.left <= 1152921504606846976
+//@   requires nn()
+//@   modifies l.iOuter, l.baseData, l.baseStart, l.baseEnd
+//@   ensures cur()
+//@   ensures nn()
+//@   ensures result1 == nil ==> len(result0) == j - i
+//@   loop 1
+//@     invariant cur()
+//@     invariant nn()
+//@     invariant len(l.o) > 0 && fresh(b) && len(b) == size
+//@     invariant l.baseStart <= i && i <= l.baseEnd && i <= j && 0 <= k && k + (j - i + 1) == size
+
+//@ func (*LinearLocator).At
+//@   requires l != nil
+//@   let cur() = len(l.o) == 0 || (0 <= l.iOuter && l.iOuter < len(l.o) && l.baseStart == l.o[l.iOuter].UpperAppOffset && len(l.baseData) == len(l.o[l.iOuter].Data) && l.baseEnd == l.baseStart + len(l.baseData))
+//@   let nn() = forall q int {l.o[q]} :: 0 <= q && q < len(l.o) ==> l.o[q] != nil && 0 <= l.o[q].UpperAppOffset && l.o[q].UpperAppOffset <= 4611686018427387904
+//@   requires cur() && 0 <= i && i <= 1152921504606846976 && 0 <= l.left && l.left <= 1152921504606846976
+//@   requires nn()
+//@   modifies l.iOuter, l.baseData, l.baseStart, l.baseEnd
+//@   ensures cur()
+//@   ensures nn()
+
+// the constructor establishes the cursor invariant that relocate / Range / At preserve
+//@ func NewLinearLocator
+//@   requires forall q int {o[q]} :: 0 <= q && q < len(o) ==> o[q] != nil && 0 <= o[q].UpperAppOffset && o[q].UpperAppOffset <= 4611686018427387904
+//@   ensures result != nil && fresh(result) && result.left == 0 && len(result.o) == len(o) && (len(o) > 0 ==> result.o == o)
+//@   ensures len(o) == 0 || (result.iOuter == 0 && result.baseStart == o[0].UpperAppOffset && len(result.baseData) == len(o[0].Data) && result.baseEnd == result.baseStart + len(result.baseData))
